@@ -37,6 +37,17 @@ BLOCK = {"Exception": Exception, "BaseException": BaseException, "StopIteration"
 VALUE = object()
 
 
+class StopIterationSub(StopIteration):
+    pass
+
+
+class StopAsyncIterationSub(StopAsyncIteration):
+    pass
+
+
+SUBCLASS = {"StopIteration": StopIterationSub, "StopAsyncIteration": StopAsyncIterationSub}
+
+
 class GenProxy:
     """Counts how the context manager drives the generator."""
 
@@ -123,6 +134,11 @@ def make_genfunc(prog, made, st):
                 yield VALUE
             except BaseException:  # noqa: BLE001
                 raise mk(StopAsyncIteration)
+        elif h == "raisert":
+            try:
+                yield VALUE
+            except BaseException:  # noqa: BLE001
+                raise mk(RuntimeError)
         elif h == "raisertfrom":
             try:
                 yield VALUE
@@ -139,12 +155,12 @@ def make_genfunc(prog, made, st):
     return genfunc
 
 
-def run_case(case, factory_of):
+def run_case(case, factory_of, subclass=False):
     prog, o = case["prog"], case["o"]
     made, st = [], {"anext": 0, "athrow": 0, "aclose": 0}
     genfunc = make_genfunc(prog, made, st)
     cmf = factory_of(genfunc)
-    blockexc = BLOCK[o]() if o != "normal" else None
+    blockexc = (SUBCLASS[o] if subclass and o in SUBCLASS else BLOCK[o])() if o != "normal" else None
     obs = {"bound": None, "entered": False}
 
     async def body():
@@ -205,6 +221,11 @@ INVARIANT Emit
 """
 
 
+def prog_label(got, c):
+    """Outcome label with the subclass name folded back (raise same type builds a subclass instance)."""
+    return got["label"].replace("IterationSub", "Iteration"), got["entered"]
+
+
 def check(prop, tier, seed, into=None):
     v = into or Verdict(prop, tier, seed)
     res = run_tlc("CtxMgr", CFG, outfiles=["cases.ndjson"], timeout=600)
@@ -226,22 +247,28 @@ def check(prop, tier, seed, into=None):
         if c["lib"] == "stdlib":
             got = run_case(c, contextlib.asynccontextmanager)
             n["twin"] += 1
+            if c["o"] in SUBCLASS:      # a subclass of Stop*Iteration raised in the block behaves like the class itself
+                got_sub = run_case(c, contextlib.asynccontextmanager, subclass=True)
+                if prog_label(got_sub, c) != prog_label(got, c):
+                    mach.append({"case": {"prog": c["prog"], "o": c["o"] + "(subclass)"}, "expected": got, "twin": got_sub})
             # contextlib closes the generator once more after 'did not stop': not a resume of the body
             if {x: got[x] for x in ("label", "entered")} != {x: exp[x] for x in ("label", "entered")}:
                 mach.append({"case": {"prog": c["prog"], "o": c["o"]}, "expected": exp, "twin": got})
         else:
-            got = run_case(c, L.contextmanager)
-            n["impl"] += 1
-            cfg = {"prog": c["prog"], "block": c["o"]}
-            if got["entered"] != exp["entered"]:
-                v.violation(f"C13/contextmanager/enter-{got['entered']}-instead-of-{exp['entered']}", {"engine": "ctxmgr", "cfg": cfg, "expected": exp, "observed": got})
-            elif got["label"] != exp["label"]:
-                v.violation(f"C13/contextmanager/{got['label'].split(':')[0]}-instead-of-{exp['label'].split(':')[0]}+block-{c['o']}",
-                            {"engine": "ctxmgr", "spec": "CtxMgr", "cfg": cfg, "expected": exp, "observed": got})
-            elif got["nresume"] != exp["nresume"]:
-                v.violation("C13/contextmanager/generator-not-driven-exactly-once", {"engine": "ctxmgr", "cfg": cfg, "expected": exp, "observed": got})
-            if not got.get("acct_ok", True):
-                v.violation("C13/contextmanager/suspends-without-user-awaitable", {"engine": "ctxmgr", "cfg": cfg})
+            runs = [run_case(c, L.contextmanager)] + ([run_case(c, L.contextmanager, subclass=True)] if c["o"] in SUBCLASS else [])
+            n["impl"] += len(runs)
+            for got, sub in zip(runs, ("", "(subclass)")):
+                cfg = {"prog": c["prog"], "block": c["o"] + sub}
+                got = dict(got, label=got["label"].replace("IterationSub", "Iteration"))   # `raise type(exc)()` builds the subclass
+                if got["entered"] != exp["entered"]:
+                    v.violation(f"C13/contextmanager/enter-{got['entered']}-instead-of-{exp['entered']}", {"engine": "ctxmgr", "cfg": cfg, "expected": exp, "observed": got})
+                elif got["label"] != exp["label"]:
+                    v.violation(f"C13/contextmanager/{got['label'].split(':')[0]}-instead-of-{exp['label'].split(':')[0]}+block-{c['o']}",
+                                {"engine": "ctxmgr", "spec": "CtxMgr", "cfg": cfg, "expected": exp, "observed": got})
+                elif got["nresume"] != exp["nresume"]:
+                    v.violation("C13/contextmanager/generator-not-driven-exactly-once", {"engine": "ctxmgr", "cfg": cfg, "expected": exp, "observed": got})
+                if not got.get("acct_ok", True):
+                    v.violation("C13/contextmanager/suspends-without-user-awaitable", {"engine": "ctxmgr", "cfg": cfg})
     if mach:
         raise MachineryError("CtxMgr spec disagrees with contextlib.asynccontextmanager: " + str(mach[:4]))
     for c in cases[:: max(1, len(cases) // 5)]:
